@@ -15,7 +15,7 @@ func TestC20(t *testing.T) {
 		StallS: 180, ShrinkBudget: 6,
 		Meta: map[string]any{
 			"components": map[string]string{
-				"keystore.EncryptKey / DecryptKey (scrypt, pbkdf2, AES-CTR, AES-CBC v1, MAC), Key JSON codec":                           "real",
+				"keystore.EncryptKey / DecryptKey (scrypt, pbkdf2, AES-CTR, AES-CBC v1, MAC), Key JSON codec":                                     "real",
 				"KeyStore manager (account cache, Unlock/Lock, Export, Import, Update, SignHashWithPassphrase, SignHashAllowed), plaintext store": "real, over a scratch directory whose key file the simulator rewrites between operations",
 				"pbkdf2 / version-1 key files": "written by an independent encoder (refmodel/secretstorage.go); the repository only reads these forms",
 				"crypto/rand (salt, IV)":       "seeded per run (testing/cryptotest.SetGlobalRandom)",
